@@ -264,6 +264,10 @@ def run(chk, prog):
                 c = calls[0]
                 vals = tuple((A.strip(a_).get("value", A.strip(a_).get("const"))) for a_ in c.get("args", []))
                 got = (c["callee"], vals)
+            if got is None:
+                # the data pointer is neither an accessor call, nor a local initialised from one, nor a buffer packed by a recognised copy:
+                # where the numbers come from is not established, which is not evidence that they come from the wrong place
+                raise AnalysisBroken("HDF5File: the source of dataset %s at line %d is not identified (pointer `%s`)" % (pth, x["line"], A.show(src)[:60]))
             chk.check(got == want, "R3", A.loc(f, x), "dataset %s is fed from %s%s (got %s)" % (pth, want[0].split("::")[-1], want[1], got),
                       "dataset:%s:source:%s" % (pth, got))
             nsrc += 1
@@ -388,6 +392,10 @@ def run(chk, prog):
                     why = "rows of %s values copied from stride %s to stride %s for b in [%s,%s)" % (rowlen, s_stride, d_stride, L.lo, L.hi)
                     if ok:
                         break
+                root_ = A.declref(A.strip(A.call_object(src))) if src.get("k") == "CXXMemberCallExpr" and A.call_object(src) is not None else A.declref(src)
+                is_local_buf = root_ is not None and root_.get("local") and "vector" in (root_.get("ctype") or "")
+                if not cps and is_local_buf:
+                    raise AnalysisBroken("HDF5File: %s is written from a local buffer whose packing is not a row-wise std::copy_n (line %d): not judged" % (ds[m_][0], x["line"]))
                 chk.check(ok, "R3", A.loc(f, x), "%s is written from a local buffer packed row by row with the record's row length (%s)" % (ds[m_][0], why),
                           "dataset:%s:packed-rows" % ds[m_][0])
     chk.floor("R3-row-shapes", nshape, 8)
